@@ -115,7 +115,7 @@ fn parse_data_section(
         input,
         position.duration_tree,
         position.duration_pdf,
-        global.num_states * 2,
+        global.num_states.saturating_mul(2),
     )?;
 
     let stream_models: Vec<StreamModels> = global
@@ -135,8 +135,12 @@ fn parse_data_section(
                 input,
                 pos.stream_tree,
                 pos.stream_pdf,
-                stream_data.vector_length * stream_data.num_windows * 2
-                    + (stream_data.is_msd as usize),
+                // an impossible size simply fails to parse
+                stream_data
+                    .vector_length
+                    .saturating_mul(stream_data.num_windows)
+                    .saturating_mul(2)
+                    .saturating_add(stream_data.is_msd as usize),
             )?;
 
             let gv_model = if stream_data.use_gv {
@@ -144,7 +148,7 @@ fn parse_data_section(
                     input,
                     pos.gv_tree.ok_or(ModelParseError::UseGvError)?,
                     pos.gv_pdf.ok_or(ModelParseError::UseGvError)?,
-                    stream_data.vector_length * 2,
+                    stream_data.vector_length.saturating_mul(2),
                 )?;
                 Some(gv_model)
             } else {
